@@ -298,6 +298,38 @@ func onlyDiagnosticsAfter(c *Ctx, ifi *ssa.If, callersOf func(*ssa.Function) []s
 	for _, s := range ifi.Block().Succs {
 		work = append(work, s)
 	}
+	// what the branch decides ends where its two ways meet again: the nearest block that both
+	// successors reach (an `if debug { print }` inside a loop decides the print, not the loop)
+	{
+		reach := func(from *ssa.BasicBlock) (map[*ssa.BasicBlock]int, []*ssa.BasicBlock) {
+			dist := map[*ssa.BasicBlock]int{from: 0}
+			order := []*ssa.BasicBlock{from}
+			for i := 0; i < len(order); i++ {
+				for _, s := range order[i].Succs {
+					if _, has := dist[s]; !has && s != ifi.Block() {
+						dist[s] = dist[order[i]] + 1
+						order = append(order, s)
+					}
+				}
+			}
+			return dist, order
+		}
+		succs := ifi.Block().Succs
+		if len(succs) == 2 && succs[0] != succs[1] {
+			d0, o0 := reach(succs[0])
+			d1, _ := reach(succs[1])
+			var join *ssa.BasicBlock
+			best := 1 << 30
+			for _, b := range o0 {
+				if x, has := d1[b]; has && d0[b]+x < best {
+					best, join = d0[b]+x, b
+				}
+			}
+			if join != nil {
+				seen[join] = true // stop there
+			}
+		}
+	}
 	localRoot := func(a ssa.Value) bool {
 		for d := 0; d < 8; d++ {
 			switch x := a.(type) {
